@@ -10,6 +10,8 @@ R6.4 only coordinates are written: no effect on names, residue labels, atom orde
 R6.5 one seedable random stream: the only nondeterminism sources reachable from align_molecules are numpy's
      global-stream functions; no other RNG, clock, or hash-ordered iteration
 R6.6 the proposals are translation / rotation about the centroid / bond-restoring move (C09/R9.3, C07)
+R6.7 default deformation types stay within {0,1,2} and exclude single-atom moves for one-atom molecules
+R6.8 the acceptance rule keeps its positive form, so a proposal with a NaN energy is rejected (finite coordinates)
 """
 from __future__ import annotations
 
@@ -62,6 +64,9 @@ def run(ctx: Ctx):
     L = c09.Loop(ctx)
     c09.r9_3(ctx, L, rule="R6.6")
     c07.r7_1(ctx, ctx.func("move_mol_atom"), rule="R6.6")
+    # R6.8: a proposal whose energy is not a number (degenerate single-atom move) is never accepted: the acceptance
+    # rule has the positive form `E0/E1 >= 1 -> accept, else one draw`, which is False for NaN on both tests
+    c09.r9_6(ctx, L, rule="R6.8")
 
 
 def r6_2(ctx: Ctx, E: Effects, rule="R6.2"):
